@@ -305,4 +305,22 @@ CONFIG = {
         "extra_modules": ["PatVerif.Proofs.DER"],
         "contradicts": "PatVerif.Props.C18",
     },
+    "C17": {
+        "rule": "Harness built with -race. Per scenario a freshly constructed shared object (\"from first use onwards\") is used by 8/16 goroutines × 6/40 "
+                "calls released at once, 3/25 rounds: Ed25519 key (Sign, Verify, Blind, BlindKeySign; first scenario in the process so the package tables are "
+                "built concurrently), ECDSA key (Sign, SignASN1, Verify, VerifyASN1, BlindPublicKey, BlindKeySign), type-1/5 issuers (TokenKeyID, Evaluate, "
+                "Verify of the finalized token), type-2 issuer, type-3 issuer (registered and unregistered origins), generic batch issuer. Every call's result is "
+                "compared with what a sequential call gives; every race report is a failing input (deduplicated by stack).",
+        "level_text": "readonly_racefree, readonly_sequentially_consistent (calls whose shared accesses are reads never conflict and, under every interleaving, "
+                      "observe exactly what they observe alone), once_consistent / once_racefree (sync.Once-guarded initialisation), lazy_cache_races "
+                      "(an unsynchronised lazy cache does race) are Lean theorems about the footprint model. That the Go calls have read-only / Once-only "
+                      "footprints on shared objects is established with the Go race detector on the scenarios above.",
+        "level_note": "PARTIAL: the theorem is about the footprint abstraction; Go's memory model, the scheduler and data races inside dependencies are not "
+                      "modelled — the race detector observes them on the executed interleavings, it does not prove their absence. Sharing one circl "
+                      "oprf.PublicKey object between clients is circl's contract, not pat-go's, and is not exercised.",
+        "trusted_base": COMMON_TB + ["Go race detector (ThreadSanitizer) as the oracle for footprints"],
+        "assumptions": ["footprints of the Go calls are as observed"],
+        "race": True,
+        "contradicts": "PatVerif.Props.C17",
+    },
 }
